@@ -35,3 +35,57 @@ Proof. exact g_write_colored_eq. Qed.
 Theorem translated_write_colored_is_spec : forall w fg bg data,
   g_write_colored w fg bg data = sa_write_colored (wa_idx fg) (wa_idx bg) data w.
 Proof. intros. rewrite g_write_colored_eq. apply model_is_spec. Qed.
+
+(* ---- crates/anstyle-wincon/src/stream.rs: the per-type `impl WinconStream for <T>` (non-Windows) ----
+   Every impl is TRANSLATED (Generated/WinconAnsiFn.v, the g_wc_ definitions).  Each one hands `self` and the three
+   arguments, in order, to `ansi::write_colored` exactly once and returns its answer: no buffering wrapper,
+   no second write, no swapped colours.  Stdout / Stderr go through `self.lock()` (a view of the same
+   stream) and then through the TRANSLATED impl of their lock type. *)
+Ltac wc_forward f := intros; unfold f;
+  match goal with |- context [let '(_, _) := ?c in _] => destruct c; reflexivity end.
+
+Lemma g_wc_dyn_eq w fg bg data : g_wc_dyn w fg bg data = g_write_colored w fg bg data.
+Proof. wc_forward g_wc_dyn. Qed.
+Lemma g_wc_dyn_send_eq w fg bg data : g_wc_dyn_send w fg bg data = g_write_colored w fg bg data.
+Proof. wc_forward g_wc_dyn_send. Qed.
+Lemma g_wc_dyn_send_sync_eq w fg bg data : g_wc_dyn_send_sync w fg bg data = g_write_colored w fg bg data.
+Proof. wc_forward g_wc_dyn_send_sync. Qed.
+Lemma g_wc_file_eq w fg bg data : g_wc_file w fg bg data = g_write_colored w fg bg data.
+Proof. wc_forward g_wc_file. Qed.
+Lemma g_wc_vec_eq w fg bg data : g_wc_vec w fg bg data = g_write_colored w fg bg data.
+Proof. wc_forward g_wc_vec. Qed.
+Lemma g_wc_stdoutlock_eq w fg bg data : g_wc_stdoutlock w fg bg data = g_write_colored w fg bg data.
+Proof. wc_forward g_wc_stdoutlock. Qed.
+Lemma g_wc_stderrlock_eq w fg bg data : g_wc_stderrlock w fg bg data = g_write_colored w fg bg data.
+Proof. wc_forward g_wc_stderrlock. Qed.
+Lemma g_wc_stdout_eq w fg bg data : g_wc_stdout w fg bg data = g_write_colored w fg bg data.
+Proof. rewrite <- g_wc_stdoutlock_eq. wc_forward g_wc_stdout. Qed.
+Lemma g_wc_stderr_eq w fg bg data : g_wc_stderr w fg bg data = g_write_colored w fg bg data.
+Proof. rewrite <- g_wc_stderrlock_eq. wc_forward g_wc_stderr. Qed.
+(* the two generic impls forward to the pointee's impl [twc], whatever it is *)
+Lemma g_wc_refmut_eq twc w fg bg data : g_wc_refmut twc w fg bg data = twc w fg bg data.
+Proof. wc_forward g_wc_refmut. Qed.
+Lemma g_wc_box_eq twc w fg bg data : g_wc_box twc w fg bg data = twc w fg bg data.
+Proof. wc_forward g_wc_box. Qed.
+
+(* the nine concrete impls, by name *)
+Definition g_wc_impls : list (writer -> option ansi_color -> option ansi_color -> list N -> writer * (N + ekind)) :=
+  [g_wc_dyn; g_wc_dyn_send; g_wc_dyn_send_sync; g_wc_file; g_wc_vec; g_wc_stdoutlock; g_wc_stderrlock; g_wc_stdout; g_wc_stderr].
+
+Theorem translated_impls_are_write_colored : forall f, In f g_wc_impls ->
+  forall w fg bg data, f w fg bg data = wa_write_colored fg bg data w.
+Proof.
+  intros f H w fg bg data. rewrite <- g_write_colored_eq. cbn [g_wc_impls In] in H.
+  repeat (destruct H as [<-|H]; [first [apply g_wc_dyn_eq|apply g_wc_dyn_send_eq|apply g_wc_dyn_send_sync_eq|apply g_wc_file_eq
+    |apply g_wc_vec_eq|apply g_wc_stdoutlock_eq|apply g_wc_stderrlock_eq|apply g_wc_stdout_eq|apply g_wc_stderr_eq]|]).
+  destruct H.
+Qed.
+
+(* ... through any number of `&mut` / `Box` layers *)
+Theorem translated_generic_impls_forward : forall twc w fg bg data,
+  g_wc_refmut twc w fg bg data = twc w fg bg data /\ g_wc_box twc w fg bg data = twc w fg bg data.
+Proof. intros. exact (conj (g_wc_refmut_eq _ _ _ _ _) (g_wc_box_eq _ _ _ _ _)). Qed.
+
+Theorem translated_impls_are_spec : forall f, In f g_wc_impls ->
+  forall w fg bg data, f w fg bg data = sa_write_colored (wa_idx fg) (wa_idx bg) data w.
+Proof. intros f H w fg bg data. rewrite (translated_impls_are_write_colored f H). apply model_is_spec. Qed.
